@@ -8,6 +8,9 @@ from harness import common as C
 
 TRUSTED = [
     "Coq 8.16.1 kernel + coqc; vm_compute only in the closed Example; no native_compute",
+    "translators/readloops.py (Python ast -> Gallina for ParquetFile.head and the row-group loop of ParquetFile.to_pandas on its default "
+    "path: no filters, row_filter=False) and its prelude Dataset/PyPrelude.v (unbound locals, numpy basic slicing with clamping, "
+    "slice assignment refusing a length mismatch)",
     "extraction: ExtrOcamlBasic only, no Extract Constant; ocaml/driver.ml s-expression I/O",
     "section variables of the model: rows d = what core.read_row_group delivers for a row-group descriptor (C01/C03 cover the decoding), "
     "nrows d = rg.num_rows with the hypothesis nrows d = |rows d| (the writer's bookkeeping, C01/C17; checked on every generated dataset), "
@@ -22,6 +25,28 @@ TRUSTED = [
 def _init():
     warnings.filterwarnings("ignore")
     C.use_shadow()
+
+
+def _translated(ctx):
+    """regenerate Gallina from api.py's head / to_pandas loops and re-prove the obligations over the generated text;
+    a construct outside the translator's fragment -> fallback to the hand model + correspondence (recorded, not an alarm)"""
+    import sys
+    sys.path.insert(0, C.VERIF)
+    from translators import readloops
+    res = readloops.run(C.REPO, ctx.gen_dir)
+    ctx.extra["translator"] = {k: {kk: vv for kk, vv in v.items() if kk != "file"} for k, v in res.items()}
+    for unit, proofs in (("GenToPandas", "GenToPandasProofs.v"), ("GenHead", "GenHeadProofs.v")):
+        r = res[unit]
+        if r["status"] != "translated":
+            ctx.notes.append("translator_fallback: %s: %s" % (unit, r["reason"]))
+            continue
+        ok, out = C.coqc(r["file"], extra_q=[(ctx.gen_dir, "PqGen")])
+        if not ok:
+            # generated text that does not type-check is a translator limitation, not a finding about the code
+            ctx.notes.append("translator_fallback: %s: generated file rejected by coqc: %s" % (unit, out[-300:]))
+            ctx.extra["translator"][unit]["status"] = "translator_fallback"
+            continue
+        ctx.coq_file(os.path.join(C.COQ, "genproofs", proofs), extra_q=[(ctx.gen_dir, "PqGen")])
 
 
 def _sy(x):
@@ -74,6 +99,7 @@ def run(ctx):
     ctx.assume = ["nrows d = length (rows d) for every row group (writer bookkeeping; checked on every generated dataset)",
                   "head(n) for natural n; iteration claims need at least one data column"]
     ctx.coq_file(os.path.join(C.COQ, "props", "C06.v"))
+    _translated(ctx)
     bad = C.hygiene()
     ctx.obligation("hygiene: no Admitted/Axiom/Parameter/... in coq/", not bad, "; ".join(bad))
     C.shadow()
